@@ -163,6 +163,38 @@ ADD3 = {
  'C18': ('interprocedural release summaries (RELEASES, RELEASES-ON-FAILURE)', 'Also: a failed call leaves its arguments to the caller wherever the caller releases them on the failure branch (28 sites); the recorded capacity of a buffer changes only after realloc succeeded (6 sites incl. the vendored LZMA decoder; reported D32, repaired); the LZMA decoder is marked ready only on the success edge of its lazy allocation.'),
  'C19': ('', 'Also: private configuration copies deep-copy every hook and are destroyed with their owner.'),
 }
+# second build round: rules added per property; the shared clauses are appended from sa/imports.py below
+ADD4 = {
+ 'C01': ('', 'Also: a view handed out through (&data, &len) - the consolidated line - is never lengthened by hand.'),
+ 'C02': ('sibling agreement of the passes of a two-pass scanner (iteration-path signatures)', 'Also: the measuring pass and the copying pass over a quoted string step over an escape the same way; the header line parked for a possible continuation is processed before the header state is left (D43 found, replayed, repaired).'),
+ 'C03': ('', 'Also: a state function that consumed a consolidated line clears the line buffer before it consolidates again (D42 found here and by C06.i, replayed, repaired).'),
+ 'C05': ('', 'Also: no function reaches htp_tx_finalize twice for one transaction on one path; the function that runs a TRAILER hook flushes that stage\'s data receiver before it returns.'),
+ 'C06': ('', 'Also: no path counts a line in *_message_len and then un-reads it (D42: 34 wire bytes reported as 42; replayed, repaired); a framing line that is consumed has been counted on that path.'),
+ 'C07': ('', 'Also: an LZMA decoder is set up only under lzma_memlimit > 0 and response_lzma_layer_limit > 0; the Content-Encoding token scanner reads its separators as a set of characters.'),
+ 'C08': ('', 'Also: beyond the repetition cap a repeated header line never reads through the stored value again.'),
+ 'C09': ('', 'Also: a request-side transition called from the response side (and vice versa) is guarded by that direction\'s status != ERROR and != STOP (D44 found, replayed: three request callbacks after HTP_STREAM_ERROR; repaired).'),
+ 'C11': ('', 'Also: the list-member matcher of htp_header_has_token resets its comparison offset whenever it gives up on a member; the field name is trimmed in a loop in both generic header parsers.'),
+ 'C12': ('interval computation of the code points admitted by the guards of each raise site', 'Also: an unfinished multi-byte sequence at the end of the path raises the invalid-UTF-8 indicator in both scanners (D40 found, replayed, repaired); the half/full-width indicator is raised for exactly U+FF00..U+FFEF at all four sites (D41 found, replayed, repaired); best-fit lookups leave their loop only on equality tests.'),
+ 'C13': ('', 'Also: what the authority splitter hands out (host, port text, port number) is stored on every successful path of htp_parse_uri_hostport; the hybrid setters store exactly the (pointer, length) they are given.'),
+ 'C14': ('', 'Also: a look-ahead data[pos + k] in htp_mpartp_parse raises no flag and stores no state on the paths where that byte is not in this chunk.'),
+ 'C15': ('', 'Also: the decode switch of the urlencoded parser is written only by its constructor / setter, never by the code that feeds it.'),
+ 'C16': ('', 'Also: both FINALIZE states reach a completion call only on a closed stream or after the look-ahead; the CONNECT wait gate is keyed on response_progress; no transaction is created by the response side while the request side is parked on a CONNECT (D45 found, replayed, recorded).'),
+ 'C17': ('', 'Also: every substring search advances its start position by exactly one per attempt; no numeric parser leaves a scan of the text because a subscript cursor reached a constant.'),
+ 'C18': ('', 'Also: a header / parameter record that is already in its table never gets the result of a may-fail call stored straight into its name or value; the one suppression by name (htp_hook_register) re-checks its premise on every run.'),
+ 'C19': ('', 'Also: every writable global and function-local static is followed through its aliases (locals, parameters, record fields), whether it escapes as a call argument or by assignment.'),
+}
+for _p, (_tech, _t) in ADD4.items():
+    ADD.setdefault(_p, dict(technique='', text=''))
+    ADD[_p]['text'] = (ADD[_p]['text'] + ' ' + _t).strip()
+    if _tech:
+        ADD[_p]['technique'] = (ADD[_p]['technique'] + '; ' + _tech).strip('; ')
+sys.path.insert(0, V)
+from sa import imports as _imports
+for _p, _lst in _imports.IMPORTS.items():
+    _names = ', '.join('%s (%s)' % (', '.join(_r), _src) for _src, _r, _why in _lst)
+    ADD.setdefault(_p, dict(technique='', text=''))
+    ADD[_p]['text'] = (ADD[_p]['text'] + ' Shared clauses, evaluated again as part of this check because breaking them breaks this property too (sa/imports.py gives the reason for each): ' + _names + '.').strip()
+    ADD[_p]['technique'] = (ADD[_p]['technique'] + '; rules of neighbouring properties that are necessary conditions of this one are re-evaluated by this check (shared clauses)').strip('; ')
 for _p, (_tech, _t) in ADD3.items():
     ADD.setdefault(_p, dict(technique='', text=''))
     ADD[_p]['text'] = (ADD[_p]['text'] + ' ' + _t).strip()
